@@ -14,6 +14,7 @@ import PopsModel.Driver.Util
 import PopsModel.Model.HostPred
 import PopsModel.Model.Treat
 import PopsModel.Model.Actions
+import PopsModel.Model.RunStep
 namespace Pops.Driver.HostEng
 open Pops Pops.Driver
 
@@ -174,6 +175,24 @@ def checkMove (st : State) (pre post : List Cell) (obsSuit : List (Int × Int))
         if ret.isSome && ret != some (toString moved) then s!"MISMATCH hp.move ret model={moved}"
         else if obsSuit != expSuit then "MISMATCH hp.move suitable"
         else cmpCells "hp.move" ((pre.set a ms).set b md) post
+
+/-- Step inputs with neutral defaults; the handlers fill in the fields of the action they replay. -/
+def baseInputs (st : State) : StepInputs :=
+  { g := { rows := st.rows, cols := st.cols }, mt := st.mt, latency := st.latency, suit := st.suit,
+    lethalThreshold := 0, temperatures := [], lethalDraws := [], survivalRates := [], survivalDrawsI := [],
+    survivalDrawsE := [], landings := [], stochasticEst := false, pEst := 0, overThreshold := 0, overLeaving := 0,
+    overTargets := [], moves := [], treatEvents := [], mortalityRate := 0, mortalityLag := 0 }
+
+/-- Replay one action through the generator `run_step` is composed of (Model/RunStep.lean) and
+    compare with the observed cells: this ties `actionGen`, on which C01_model_step and C09_compose
+    are stated, to the code action by action. -/
+def genReplay (what : String) (inp : StepInputs) (step : Nat) (a : ActionKind) (pre post : List Cell) : String :=
+  match runOps (actionGen inp step a pre) pre with
+  | .error e => s!"MISMATCH {what} generator model={errTok e}"
+  | .ok exp =>
+    match firstDiff exp post with
+    | none => "ok"
+    | some d => s!"MISMATCH {what} generator {d}"
 
 /-- `name=value` token. -/
 def kv? (tok : String) (key : String) : Option String :=
@@ -541,7 +560,11 @@ def handle (st : State) (cmd : String) (inp obsToks : List String) : State × St
                   else none
                 else if a != b then some s!"cell={k} unchanged-expected"
                 else none
-              finish st o (match bad with | some d => s!"MISMATCH hp.survival {d}" | none => "ok")
+              let dIs := st.suit.map fun (r, c) => subL (pre[idx st r c]!).mort (post[idx st r c]!).mort
+              let dEs := st.suit.map fun (r, c) => subL (pre[idx st r c]!).e (post[idx st r c]!).e
+              finish st o (match bad with
+                | some d => s!"MISMATCH hp.survival {d}"
+                | none => genReplay cmd { baseInputs st with survivalRates := rates, survivalDrawsI := dIs, survivalDrawsE := dEs } 0 .survival pre post)
         | none => (st, "BADLINE")
       -- RemoveByTemperature: threshold, temperatures per cell
       | "hp.lethal", thr :: tempToks =>
@@ -568,7 +591,10 @@ def handle (st : State) (cmd : String) (inp obsToks : List String) : State × St
                   else none
                 else if a != b then some s!"cell={k} unchanged-expected"
                 else none
-              finish st o (match bad with | some d => s!"MISMATCH hp.lethal {d}" | none => "ok")
+              let draws := st.suit.map fun (r, c) => subL (pre[idx st r c]!).mort (post[idx st r c]!).mort
+              finish st o (match bad with
+                | some d => s!"MISMATCH hp.lethal {d}"
+                | none => genReplay cmd { baseInputs st with lethalThreshold := thr, temperatures := temps, lethalDraws := draws } 0 .lethal pre post)
         | _, _ => (st, "BADLINE")
       -- Mortality action (apply at suitable cells, then age all cohorts): rate lag
       | "hp.mortality", [rate, lag] =>
@@ -599,7 +625,8 @@ def handle (st : State) (cmd : String) (inp obsToks : List String) : State × St
                 let a := pre[k]!
                 let a1 := if isSuit st k then (match a.applyMortality rate lag with | .ok c' => c' | .error _ => a) else a
                 a1.stepForwardMortality
-              finish st o (cmpCells cmd exp post)
+              let v := cmpCells cmd exp post
+              finish st o (if v == "ok" then genReplay cmd { baseInputs st with mortalityRate := rate, mortalityLag := lag } 0 .mortality pre post else v)
         | _, _ => (st, "BADLINE")
       -- step_forward(step) on all cells
       | "hp.stepfwd", [step] =>
@@ -617,7 +644,9 @@ def handle (st : State) (cmd : String) (inp obsToks : List String) : State × St
               else none
             match spec with
             | some v => finish st o v
-            | none => finish st o (cmpCells cmd (pre.map (Cell.stepForward st.mt st.latency step)) post)
+            | none =>
+              let v := cmpCells cmd (pre.map (Cell.stepForward st.mt st.latency step)) post
+              finish st o (if v == "ok" then genReplay cmd (baseInputs st) step .stepForward pre post else v)
         | none => (st, "BADLINE")
       -- Treatments::manage(step): every treatment applied exactly at its start step, pesticides
       -- ended exactly at their end step, nothing else
@@ -755,7 +784,8 @@ def handle (st : State) (cmd : String) (inp obsToks : List String) : State × St
                   if outO != expOut then finish st o s!"PROPFAIL C17 outside_recorded observed={outO.length} expected={expOut.length}"
                   else
                     let (cells', _, _) := overpopulationStep g st.suit pre { st.pest with outside := [] } thr leave targets
-                    finish st o (cmpCells cmd cells' post)
+                    let v := cmpCells cmd cells' post
+                    finish st o (if v == "ok" then genReplay cmd { baseInputs st with overThreshold := thr, overLeaving := leave, overTargets := targets } 0 .overpopulation pre post else v)
                 | _, _ =>
                   -- uniform natural kernel: destinations are unknown but always inside the study area;
                   -- pests that leave either establish somewhere or vanish, none is recorded outside
